@@ -175,6 +175,42 @@ mod zero_group {
     }
 }
 
+// ---- argument / generic cases ------------------------------------------------
+// Without a `Bencher` parameter the attribute macro starts the sample loop itself
+// (there is no place for a RUN marker, so these use a single thread count).
+
+/// argument only
+#[divan::bench(args = [1, 2], threads = 2, sample_count = 5, sample_size = 3)]
+fn arg_5_3_t2(a: u32) {
+    call(&format!("arg_5_3_t2/{a}"));
+}
+
+/// argument only, more threads than samples
+#[divan::bench(args = [7], threads = 3, sample_count = 2, sample_size = 2)]
+fn arg_2_2_t3(a: u32) {
+    call(&format!("arg_2_2_t3/{a}"));
+}
+
+/// `Bencher` and argument
+#[divan::bench(args = [1, 2], threads = [1, 2], sample_count = 5, sample_size = 3)]
+fn barg_5_3_t12(b: Bencher, a: u32) {
+    run(&format!("barg_5_3_t12/{a}"));
+    b.bench(|| call(&format!("barg_5_3_t12/{a}")));
+}
+
+/// generic over types, argument only
+#[divan::bench(types = [u8, u16], args = [1, 2], threads = 3, sample_count = 4, sample_size = 2)]
+fn garg_4_2_t3<T: 'static>(a: u32) {
+    let t = std::any::type_name::<T>();
+    call(&format!("garg_4_2_t3/{t}/{a}"));
+}
+
+/// generic over constants, argument only
+#[divan::bench(consts = [4, 8], args = [1], threads = 2, sample_count = 3, sample_size = 2)]
+fn carg_3_2_t2<const N: usize>(a: u32) {
+    call(&format!("carg_3_2_t2/{N}/{a}"));
+}
+
 /// Display paths of all benchmarks of this binary (for `HX_ONLY`).
 const ALL: &[&str] = &[
     "hx_loop_e2e::plain",
@@ -193,6 +229,17 @@ const ALL: &[&str] = &[
     "hx_loop_e2e::renamed::inner::rgi_3_2_t23",
     "hx_loop_e2e::type::raw_4_1_t3",
     "hx_loop_e2e::zero::z_0_2_t12",
+    "hx_loop_e2e::arg_5_3_t2::1",
+    "hx_loop_e2e::arg_5_3_t2::2",
+    "hx_loop_e2e::arg_2_2_t3::7",
+    "hx_loop_e2e::barg_5_3_t12::1",
+    "hx_loop_e2e::barg_5_3_t12::2",
+    "hx_loop_e2e::garg_4_2_t3::u8::1",
+    "hx_loop_e2e::garg_4_2_t3::u8::2",
+    "hx_loop_e2e::garg_4_2_t3::u16::1",
+    "hx_loop_e2e::garg_4_2_t3::u16::2",
+    "hx_loop_e2e::carg_3_2_t2::4::1",
+    "hx_loop_e2e::carg_3_2_t2::8::1",
 ];
 
 /// `HX_BUILDER`: `;`-separated builder calls (`sample_count=7`, `sample_size=3`,
